@@ -1,6 +1,7 @@
 mod check;
 mod derived;
 mod json;
+mod multi;
 mod jsonw;
 mod node;
 mod obs;
@@ -222,5 +223,13 @@ fn main() {
         s.gen("errors", s.n(40_000, 1_200_000), || case_of(errors()), sites::check);
         s.gen("well-known", s.n(16_000, 500_000), || case_of(well_known()), sites::check);
         s.gen("emit-macro", s.n(40_000, 1_200_000), emit_macro_case, sites::check);
+
+        // three properties per call, any subset optional / None, every source order, props!/emit!/info!
+        s.require("siblings:none-sorts-before-a-present-sibling", 2000);
+        s.require("siblings:none-sorts-before-lvl", 300);
+        s.require("siblings:all-none", 100);
+        s.require("siblings:all-optionals-some", 1000);
+        s.enumerate("sibling-shapes", multi::all_shapes().into_iter(), multi::check);
+        s.gen("sibling-properties", s.n(60_000, 1_800_000), || multi::mcase(hops()), multi::check);
     })
 }
